@@ -264,15 +264,23 @@ def r24e(ctx, run):
     fn = ctx.syn.fn("parse_expr_bp", EX)
     helpers = {f.qual.rsplit("::", 1)[-1]: f for f in ctx.syn.fns_in(EX) if f.body is not None and not f.in_test}
     reps = ["||", "&&", "==", "+", "*"]       # one operator per level
+    PREFIX = ("^", "-", "!", "~")             # at operand position: reference, negation, not, complement
     level = {op: i for i, ops in enumerate(LEVELS) for op in ops}
 
     def reference(tokens):
         """tree by the documented rules: tuples ('bin', op, l, r) / ('deref', x) / name"""
         pos = [0]
 
-        def operand():
+        def primary():
+            # a prefix operator takes the operand that follows it WITHOUT that operand's trailing `^`: `^foo^` is `(^foo)^`
             x = tokens[pos[0]]
             pos[0] += 1
+            if x in PREFIX:
+                return ("pre", x, primary())
+            return x
+
+        def operand():
+            x = primary()
             while pos[0] < len(tokens) and tokens[pos[0]] == "^":
                 pos[0] += 1
                 x = ("deref", x)
@@ -341,27 +349,43 @@ def r24e(ctx, run):
             mp.frames.append(moved)
             return Obj("Marker")
 
+        def m_kind(i, r, a):
+            if isinstance(r, Obj) and r.name == "Completed":
+                return Variant("NodeKind::" + r.fields["node"][1])
+            return Variant("TokenKind::" + cur()) if cur() is not None else None
+
         def parse_lhs(i, a):
+            # the dispatch table itself is not under test here (R23.g): identifiers, and the prefix forms run from their own source
+            if cur() == "Caret" and "parse_ref" in helpers:
+                return it.inline(helpers["parse_ref"], [a[0], a[1]])
+            if cur() in prefix_kinds and "parse_prefix_expr" in helpers:
+                return it.inline(helpers["parse_prefix_expr"], [a[0], a[1]])
             if cur() != "Ident":
                 return None
             m_start(None, None, None)
             m_bump(None, None, None)
             return complete(None, None, [None, Variant("NodeKind::VarRef")])
 
-        def parse_post(i, a):
-            lhs, disallow_derefs = a[2], a[3]
-            while cur() == "Caret" and disallow_derefs is not True:
-                precede(None, lhs, None)
-                m_bump(None, None, None)
-                lhs = complete(None, None, [None, Variant("NodeKind::DerefExpr")])
-            return lhs
-
         def resolver(path):
-            return helpers.get(path.rsplit("::", 1)[-1]) if path.rsplit("::", 1)[-1] not in ("parse_lhs", "parse_post_operators") else None
-        it = SymInterp(resolver=resolver,
+            return helpers.get(path.rsplit("::", 1)[-1]) if path.rsplit("::", 1)[-1] not in ("parse_lhs",) else None
+
+        def no_assert(i, e, env):
+            a_ = e.get("a") or []
+            if a_ and i.eval(a_[0], env) is False:
+                raise Panic("assert!(%s) fails" % canon(a_[0])[:50])
+            return None
+        it = SymInterp(resolver=resolver, macros={"assert": no_assert},
                        methods={"at": m_at, "at_set": m_at_set, "at_ahead": m_at_ahead, "bump": m_bump, "start": m_start, "complete": complete, "precede": precede,
-                                "at_eof": lambda i, r, a: cur() is None},
-                       funcs={"TokenSet::new": lambda i, a: frozenset(x.last for x in a[0]), "parse_lhs": parse_lhs, "parse_post_operators": parse_post, "Some": lambda i, a: a[0]})
+                                "at_eof": lambda i, r, a: cur() is None, "kind": m_kind, "peek": m_kind,
+                                "contains": lambda i, r, a: (a[0].last if isinstance(a[0], Variant) else a[0]) in r if isinstance(r, frozenset) else False,
+                                "expected_syntax_name": lambda i, r, a: Term("guard")},
+                       funcs={"TokenSet::new": lambda i, a: frozenset(x.last for x in a[0]), "parse_lhs": parse_lhs, "Some": lambda i, a: a[0]})
+        # token-set constants of the file
+        for _f, citem in ctx.syn.items_of("const", EX):
+            ce = citem.get("e")
+            if ce is not None and ce.get("k") == "call" and canon(ce["f"]) == "TokenSet::new" and ce["a"] and ce["a"][0].get("k") == "array":
+                it.consts[citem.get("name") or citem.get("ident")] = frozenset(x["p"].rsplit("::", 1)[-1] for x in ce["a"][0]["e"] if x.get("k") == "path")
+        prefix_kinds = it.consts.get("PREFIX_TOKENS", frozenset())
         quick = frozenset(spell2kind[x] for x in ("+", "-", "*", "/", "%", "|", "&", "~", "<<", ">>") if x in spell2kind)
         it.consts["stmt::QUICK_ASSIGN_OPERATORS"] = quick
         it.consts["QUICK_ASSIGN_OPERATORS"] = quick
@@ -384,6 +408,8 @@ def r24e(ctx, run):
                 return ch[0][1]
             if kind == "DerefExpr":
                 return ("deref", simp(ch[0]))
+            if kind in ("UnaryExpr", "RefExpr") and len(ch) == 2 and ch[0][0] == "tok":
+                return ("pre", ch[0][1], simp(ch[1]))
             if kind == "BinaryExpr" and len(ch) == 3:
                 return ("bin", ch[1][1], simp(ch[0]), simp(ch[2]))
             return ("?" + kind,) + tuple(simp(c) for c in ch)
@@ -395,7 +421,9 @@ def r24e(ctx, run):
         if t[0] == "bin":
             return "(%s %s %s)" % (show(t[2]), t[1], show(t[3]))
         if t[0] == "deref":
-            return "%s^" % show(t[1])
+            return "(%s)^" % show(t[1]) if not isinstance(t[1], str) else "%s^" % t[1]
+        if t[0] == "pre":
+            return "%s%s" % (t[1], show(t[2]) if isinstance(t[2], str) else "(%s)" % show(t[2]))
         return repr(t)
     seqs = []
     allops = [op for ops in LEVELS for op in ops]
@@ -406,6 +434,9 @@ def r24e(ctx, run):
         seqs += [["a", o1, "b", "^"], ["a", "^", o1, "b"], ["a", o1, "b", "^", "^"]]
         for o2 in reps:
             seqs.append(["a", o1, "b", "^", o2, "c"])
+    # prefix operators: the operand of a prefix operator does not take the trailing `^`; binary operators bind looser than any prefix
+    for pre in PREFIX:
+        seqs += [[pre, "a", "^"], [pre, "a", "^", "^"], [pre, pre, "a", "^"], ["a", "+", pre, "b", "^"], [pre, "a", "*", "b"], [pre, "a", "^", "||", "b"], ["a", "*", pre, "b", "^", "+", "c"]]
     for ops in LEVELS:
         if len(ops) > 1:
             seqs.append(["a", ops[0], "b", ops[-1], "c"])
@@ -426,7 +457,7 @@ def r24e(ctx, run):
     run.check(bad is None, fn.site(), "parse_expr_bp builds the documented tree on %d token sequences (level pairs, postfix `^` in every position)" % n, "parse_expr_bp", "trees",
               fn.file, fn.ln, "`%s` parses as %s; the documented precedence gives %s: %s" % (
                   " ".join(bad[0]), show(bad[1]) if not isinstance(bad[1], str) or not bad[1].startswith("cannot") else bad[1], show(bad[2]),
-                  "a postfix operator belongs to the operand it follows, not to the binary expression" if "^" in bad[0] else "tighter levels nest deeper, equal levels nest to the left") if bad else "")
+                  ("a prefix operator takes its operand without the operand's trailing `^` (`^foo^` is `(^foo)^`)" if bad[0][0] in PREFIX or any(x in PREFIX and j > 0 and bad[0][j - 1] in level for j, x in enumerate(bad[0])) else "a postfix operator belongs to the operand it follows, not to the binary expression") if "^" in bad[0] else "tighter levels nest deeper, equal levels nest to the left") if bad else "")
 
 
 def rules(ctx):
